@@ -20,6 +20,8 @@ CHECKS = {
  "C08": ("model_checking", "From every reachable state: clone() (clone count == len, contents are clones in order, disjoint storage) followed by each of eleven operations on either side with the other side unchanged; clone_empty and clone_empty_in for five target backends, each required to accept, clone and destroy values.", "4/C08", T_MC),
  "C09": ("model_checking", "Every cloneable source kind (ElementRef, ElementMut, pop/remove/swap_remove handle, drained element) x chain depth 1..3 x 0..3 consumptions x {push, insert front, insert middle, downcast} x unconsumed copies, from every reachable state: Clone calls == consumptions exactly, nothing destroyed, destination holds clones of the source, source still usable afterwards.", "4/C09", T_MC + "; clone counter oracle"),
  "C13": ("model_checking", "Every accessor x index 0..=len+1; every (writer kind, reader kind) pair out of 8 x 6 view kinds at every index; swap for every admissible pairing of six value-handle kinds in both dispatch orders; from every reachable state.", "4/C13", T_MC),
+ "C10": ("model_checking", "From every reachable (len,cap) state: reserve / reserve_exact / shrink_to with every argument 0..=L+2, shrink_to_fit, with_capacity, through erased and typed receivers, interleaved with every element-wise operation (same BFS): the inequalities of the statement, no-op = same capacity, same base pointer and no storage event, contents unchanged; a 2^16 push run with a logarithmic bound on reallocation events at every power-of-two prefix; plus a subprocess sweep of huge arguments at the usize / isize overflow boundaries.", "4/C10", T_MC + "; exhaustive argument sweep at overflow boundaries"),
+ "C18": ("model_checking", "Every Heap transition of the C01/C02/C08/C10 families runs under the logging global allocator (layout table, guard zones, always-moving realloc, quarantine): after every edge at most one block per vector, none while capacity x size == 0, block size/alignment sufficient, realloc/dealloc present the recorded layout, nothing allocated after drop; a subprocess sweep sends capacity requests at the isize/usize overflow boundaries and fails if an invalid layout reaches the allocator.", "4/C18", T_MC + "; allocator event-log oracle"),
 }
 NOT_YET = "check not built yet (see DESIGN.md implementation order)"
 
